@@ -4,23 +4,26 @@ C11, second sentence, on the model of the blackbox layer (`Model/Blackbox.lean`)
 the latest log records ending with the very last one."
 
 * `bb_record_within_reservation`  what `_blackbox_vlogger` commits is never more than it reserved
-                                  (C14's `ser_within_max` bound) — with the repair of defect D32, or
-                                  for `max_line_length ≥ 78`
-* `bb_too_long_overcommit_witness` defect D32: the code as it is, `max_line_length = 4`
+                                  (C14's `ser_within_max` bound) — for the code as it is (defect D32
+                                  repaired), and for the code before the repair if `max_line_length ≥ 78`
+* `bb_too_long_overcommit_witness` defect D32: the code before the repair, `max_line_length = 4`;
+  `bb_too_long_after_repair`      the same call with the code as it is
 * `bb_log_refines_reserve_commit` one log call = `alloc (reservation)` + `commit (record)`
 * `bb_history`                    a history of log calls = the reserve/commit FIFO run on `bbOps`
+* `bb_run_keeps_fit`              reserve/commit FIFO: every newest run whose RESERVATIONS fit is kept
 * `bb_dump_latest_run`            the dump taken after any history, printed by
                                   `qb_log_blackbox_print_from_file` (C15's `dump_roundtrip`)
 -/
 import QbVerif.Lemmas.BlackboxRing
 import QbVerif.Lemmas.BlackboxSer
-import QbVerif.Props.C11Hist
+import QbVerif.Props.C11BBFit
 import QbVerif.Props.C15
 
 namespace QbVerif.Props.C11
 open QbVerif.Ring QbVerif.RingSpec QbVerif.RingLemmas QbVerif.Blackbox QbVerif.BlackboxLemmas
 
-/-- the configurations for which the "too long" text fits the reservation -/
+/-- the configurations for which the "too long" text fits the reservation: the code as it is
+    (`fixD32 = true`), or — before the repair — a line limit of at least the 78 bytes of that text -/
 def TooLongFits (e : Env) (maxLine : Nat) : Prop := e.fixD32 = true ∨ 78 ≤ maxLine
 
 theorem serMessage_facts (e : Env) (maxLine : Nat) (c : Call) (hser : e.ser.strRoom = true) (hm : 1 ≤ maxLine)
@@ -71,48 +74,96 @@ theorem recHead_length (c : Call) (n : Nat) : (recHead c ++ Dump.toLe32 n).lengt
   omega
 
 /-- **What is committed is never more than was reserved.**  For every call, every line limit
-    `max_line_length ≥ 1` and every encoder with the `%s` room check: the record `_blackbox_vlogger`
+    `max_line_length ≥ 1` (resp. message bound `lim`, see `effLimit`) and every encoder with the `%s` room check: the record `_blackbox_vlogger`
     commits has `actual_size + msg_len` bytes with `msg_len ≤ max_line_length`, i.e. at most the
     `max_size` it passed to `qb_rb_chunk_alloc` (C14's `ser_within_max` bound, used for both calls
     of the encoder) — provided the fixed "too long" text fits: with the repair of D32, or
     `max_line_length ≥ 78`. -/
-theorem bb_record_within_reservation (e : Env) (t : Target) (c : Call) (hser : e.ser.strRoom = true)
-    (hm : 1 ≤ t.maxLine) (htl : TooLongFits e t.maxLine) :
-    (record e t.maxLine c).length = actualBase c + (serMessage e t.maxLine c).len ∧
-      (record e t.maxLine c).length ≤ maxSize t c := by
-  obtain ⟨h1, h2, _⟩ := serMessage_facts e t.maxLine c hser hm htl
+theorem bb_record_within_reservation (e : Env) (lim : Nat) (c : Call) (hser : e.ser.strRoom = true)
+    (hm : 1 ≤ lim) (htl : TooLongFits e lim) :
+    (record e lim c).length = actualBase c + (serMessage e lim c).len ∧
+      (record e lim c).length ≤ maxSize lim c := by
+  obtain ⟨h1, h2, _⟩ := serMessage_facts e lim c hser hm htl
   rw [record_length, h2]
   exact ⟨rfl, by unfold maxSize; omega⟩
 
-/-- a call whose message does not fit, `max_line_length = 4`, code as it is -/
+/-- a call whose message does not fit with `max_line_length = 4` -/
 def d32Call : Call :=
   { lineno := 1, tags := 0, prio := 6, fn := [109], fmt := [97, 98, 99, 100, 101, 102, 103, 104], args := [], sec := 0, nsec := 0 }
 
-/-- **Model-level witness of defect D32** (`_blackbox_vlogger` as it is, `fixD32 = false`): with
-    QB_LOG_CONF_MAX_LINE_LEN = 4 a message that does not fit is replaced by the 78-byte "too long"
-    record, serialised with `QB_LOG_MAX_LEN` as its bound: 39 bytes are reserved, 113 committed.
-    With the repair the record has 39 bytes.  Real code: fixes/D32-blackbox-too-long-bound.witness.txt. -/
+/-- **Model-level witness of defect D32** (`_blackbox_vlogger` before the repair in /repo 262ac0b,
+    `fixD32 = false`): with QB_LOG_CONF_MAX_LINE_LEN = 4 a message that does not fit was replaced by
+    the 78-byte "too long" record, serialised with `QB_LOG_MAX_LEN` as its bound: 39 bytes were
+    reserved, 113 committed.  Real code: corpus/C11/d32-too-long-bound.ops (passes now). -/
 theorem bb_too_long_overcommit_witness :
-    maxSize ⟨1024, 4, none⟩ d32Call = 39 ∧
-    (record ⟨4096, Ser.Cfg.repaired, false⟩ 4 d32Call).length = 113 ∧
-    (record ⟨4096, Ser.Cfg.repaired, true⟩ 4 d32Call).length = 39 := by
+    maxSize 4 d32Call = 39 ∧
+    (record ⟨4096, Ser.Cfg.repaired, false, false⟩ 4 d32Call).length = 113 := by
   decide +kernel
+
+/-- … and with the code as it is the record of the same call has the 39 bytes reserved: the
+    "too long" text is cut to the line limit (`msg_len = 4`: "Log" and its NUL). -/
+theorem bb_too_long_after_repair :
+    (record ⟨4096, Ser.Cfg.repaired, true, false⟩ 4 d32Call).length = 39 ∧
+    (serMessage ⟨4096, Ser.Cfg.repaired, true, false⟩ 4 d32Call).bytes = [76, 111, 103, 0] := by
+  decide +kernel
+
+/-- a call with a 600-byte string argument (`"%s"`) -/
+def d33Call : Call :=
+  { lineno := 2, tags := 0, prio := 6, fn := [109], fmt := [37, 115], args := [.str (some (List.replicate 600 109))],
+    sec := 0, nsec := 0 }
+
+/-- outcome of the printer's record checks (`Dump.parseRecord`, repaired printer, new-format dump) on
+    a chunk: `.inl m` = "msg_len out of bounds m", `.inr (some m)` = accepted with `msg_len = m` -/
+def printerCheck (chunk : List Nat) : Nat ⊕ Option Nat :=
+  match Dump.parseRecord (Dump.Cfg.repaired 4096) true (chunk ++ List.replicate (Dump.CHUNK_BUF - chunk.length) 0) chunk.length with
+  | .error (some (.msgLen m)) => .inl m
+  | .ok fl => .inr (some fl.mlen)
+  | _ => .inr none
+
+/-- **Model-level witness of defect D33** (`_blackbox_vlogger` as it is, `fixD33 = false`): under
+    QB_LOG_CONF_MAX_LINE_LEN = 4096 the 600-byte message is stored with `msg_len = 604`, and the
+    record checks of `qb_log_blackbox_print_from_file` (`Dump.parseRecord`, C15's model) reject the
+    chunk with "ERROR Corrupt file: msg_len out of bounds 604" — the printer stops there, so this
+    record and every later one are missing from the printed dump.  With the proposed repair
+    (fixes/D33-blackbox-message-limit.patch, `fixD33 = true`) the record carries the 78-byte
+    "too long" text and passes the checks.  Real code: corpus/C11/pending-d33/d33-long-message.ops. -/
+theorem bb_long_message_rejected_witness :
+    (serMessage ⟨4096, Ser.Cfg.repaired, true, false⟩ (effLimit ⟨4096, Ser.Cfg.repaired, true, false⟩ 4096) d33Call).len = 604 ∧
+    printerCheck (record ⟨4096, Ser.Cfg.repaired, true, false⟩ (effLimit ⟨4096, Ser.Cfg.repaired, true, false⟩ 4096) d33Call)
+      = .inl 604 ∧
+    (serMessage ⟨4096, Ser.Cfg.repaired, true, true⟩ (effLimit ⟨4096, Ser.Cfg.repaired, true, true⟩ 4096) d33Call).len = 78 ∧
+    printerCheck (record ⟨4096, Ser.Cfg.repaired, true, true⟩ (effLimit ⟨4096, Ser.Cfg.repaired, true, true⟩ 4096) d33Call)
+      = .inr (some 78) := by
+  decide +kernel
+
+/-- **With the repair of D33 no record carries a message the printer rejects**: for every call and
+    line limit, `msg_len ≤ QB_LOG_MAX_LEN` (and `≥ 1` is C14's: the format's NUL is always stored). -/
+theorem bb_msg_len_le_log_max (e : Env) (ml : Nat) (c : Call) (hser : e.ser.strRoom = true) (hm : 1 ≤ ml)
+    (hfix : e.fixD32 = true) (h33 : e.fixD33 = true) :
+    (serMessage e (effLimit e ml) c).len ≤ Gen.BBX_LOG_MAX_LEN := by
+  have hpos : 1 ≤ effLimit e ml := by
+    unfold effLimit; simp only [h33, if_true, Gen.BBX_LOG_MAX_LEN]; omega
+  have h := (serMessage_facts e (effLimit e ml) c hser hpos (Or.inl hfix)).1
+  have : effLimit e ml ≤ Gen.BBX_LOG_MAX_LEN := by
+    unfold effLimit; simp only [h33, if_true]; exact Nat.min_le_right _ _
+  omega
 
 /-- **One log call = `alloc (reservation)` + `commit (actual)`, actual ≤ reservation.**  See
     `BlackboxLemmas.vlogger_alloc_commit`; here its size hypotheses are discharged. -/
 theorem bb_log_refines_reserve_commit (e : Env) (t : Target) (c : Call) (rb : Rb) (q : List (List Nat)) (TR : Nat)
     (hinst : t.inst = some rb) (hinv : Inv rb q TR) (how : rb.ow = true) (hser : e.ser.strRoom = true)
-    (hm : 1 ≤ t.maxLine) (htl : TooLongFits e t.maxLine) :
-    (record e t.maxLine c).length ≤ maxSize t c ∧
-    ∃ s1 o, FifoP.step true ⟨absF rb q, none⟩ (.alloc (maxSize t c)) = some (s1, o) ∧
+    (hm : 1 ≤ (msgLimit e t)) (hfix : e.fixD32 = true) :
+    (record e (msgLimit e t) c).length ≤ maxSize (msgLimit e t) c ∧
+    ∃ s1 o, FifoP.step true ⟨absF rb q, none⟩ (.alloc (maxSize (msgLimit e t) c)) = some (s1, o) ∧
       (s1.pend = none → (vlogger e t c).inst = none) ∧
-      (s1.pend = some (maxSize t c) → ∃ rb' TR', (vlogger e t c).inst = some rb' ∧
-        Inv rb' (s1.f.q ++ [record e t.maxLine c]) TR' ∧ rb'.ow = true ∧
-        FifoP.step true s1 (.commit (record e t.maxLine c))
-          = some (⟨absF rb' (s1.f.q ++ [record e t.maxLine c]), none⟩, .num 0)) ∧
-      (s1.pend = none ∨ s1.pend = some (maxSize t c)) := by
-  obtain ⟨h1, h2⟩ := bb_record_within_reservation e t c hser hm htl
-  obtain ⟨_, _, h5⟩ := serMessage_facts e t.maxLine c hser hm htl
+      (s1.pend = some (maxSize (msgLimit e t) c) → ∃ rb' TR', (vlogger e t c).inst = some rb' ∧
+        Inv rb' (s1.f.q ++ [record e (msgLimit e t) c]) TR' ∧ rb'.ow = true ∧
+        FifoP.step true s1 (.commit (record e (msgLimit e t) c))
+          = some (⟨absF rb' (s1.f.q ++ [record e (msgLimit e t) c]), none⟩, .num 0)) ∧
+      (s1.pend = none ∨ s1.pend = some (maxSize (msgLimit e t) c)) := by
+  have htl : TooLongFits e (msgLimit e t) := Or.inl hfix
+  obtain ⟨h1, h2⟩ := bb_record_within_reservation e (msgLimit e t) c hser hm htl
+  obtain ⟨_, _, h5⟩ := serMessage_facts e (msgLimit e t) c hser hm htl
   refine ⟨h2, vlogger_alloc_commit e t c rb q TR hinst hinv how h1 ?_ h2⟩
   rw [List.length_append, recHead_length]
   unfold maxSize
@@ -123,20 +174,31 @@ theorem vlogger_cfg (e : Env) (t : Target) (c : Call) :
   unfold vlogger
   split
   · exact ⟨rfl, rfl⟩
-  · split <;> exact ⟨rfl, rfl⟩
+  · simp only
+    split <;> exact ⟨rfl, rfl⟩
+
+theorem vlogger_limit (e : Env) (t : Target) (c : Call) : msgLimit e (vlogger e t c) = msgLimit e t := by
+  unfold msgLimit
+  rw [(vlogger_cfg e t c).2]
+
+theorem effLimit_pos (e : Env) (ml : Nat) (h : 1 ≤ ml) : 1 ≤ effLimit e ml := by
+  unfold effLimit
+  split
+  · simp only [Gen.BBX_LOG_MAX_LEN]; omega
+  · exact h
 
 /-- reservation and record of every call of a history under line limit `ml` -/
 def pairsOf (e : Env) (ml : Nat) (cs : List Call) : List (Nat × List Nat) :=
   cs.map (fun c => (actualBase c + ml, record e ml c))
 
 /-- **A history of log calls = the reserve/commit FIFO run on `bbOps`.**  Blackbox of configured
-    size `S` (its ring has room for `S`, as `qb_rb_open` guarantees), line limit `ml`, every
+    size `S` (its ring has room for `S`, as `qb_rb_open` guarantees), message bound `ml`, every
     reservation at most `S`: after any history the blackbox still has its ring, the ring invariant
     holds, and the ring's contents are those of the FIFO after `alloc n₁, commit d₁, alloc n₂, …`. -/
 theorem bb_history (e : Env) (S ml : Nat) (cs : List Call) (t : Target) (rb : Rb) (q : List (List Nat)) (TR : Nat)
-    (hS : t.size = S) (hml : t.maxLine = ml)
+    (hS : t.size = S) (hml : msgLimit e t = ml)
     (hinst : t.inst = some rb) (hinv : Inv rb q TR) (how : rb.ow = true) (hser : e.ser.strRoom = true)
-    (hm : 1 ≤ ml) (htl : TooLongFits e ml) (hcap : S + MARGIN + 1 ≤ 4 * rb.W)
+    (hm : 1 ≤ ml) (hfix : e.fixD32 = true) (hcap : S + MARGIN + 1 ≤ 4 * rb.W)
     (hres : ∀ c ∈ cs, actualBase c + ml ≤ S) :
     ∃ rb' q' TR', (logAll e t cs).inst = some rb' ∧ Inv rb' q' TR' ∧ rb'.ow = true ∧ rb'.W = rb.W ∧
       ((FifoP.mk (absF rb q) none).run true (bbOps (pairsOf e ml cs))).1 = ⟨absF rb' q', none⟩ := by
@@ -144,28 +206,29 @@ theorem bb_history (e : Env) (S ml : Nat) (cs : List Call) (t : Target) (rb : Rb
   | nil => exact ⟨rb, q, TR, hinst, hinv, how, rfl, rfl⟩
   | cons c cs ih =>
     subst hml
-    obtain ⟨hfit, s1, o, hst1, _, hsome, _⟩ := bb_log_refines_reserve_commit e t c rb q TR hinst hinv how hser hm htl
-    have hn : maxSize t c ≤ S := hres c List.mem_cons_self
-    obtain ⟨q0, _, hst1'⟩ := ow_alloc_succeeds (absF rb q) S (maxSize t c) hcap hn
+    obtain ⟨hfit, s1, o, hst1, _, hsome, _⟩ := bb_log_refines_reserve_commit e t c rb q TR hinst hinv how hser hm hfix
+    have hn : maxSize (msgLimit e t) c ≤ S := hres c List.mem_cons_self
+    obtain ⟨q0, _, hst1'⟩ := ow_alloc_succeeds (absF rb q) S (maxSize (msgLimit e t) c) hcap hn
     rw [hst1'] at hst1
     simp only [Option.some.injEq, Prod.mk.injEq] at hst1
     obtain ⟨hs1, _⟩ := hst1
     subst hs1
     obtain ⟨rb', TR', hinst', hinv', how', hst2⟩ := hsome rfl
     simp only at hinv' hst2
-    have hc : FifoP.step true ⟨⟨(absF rb q).W, q0, (absF rb q).sem⟩, some (maxSize t c)⟩ (.commit (record e t.maxLine c))
-        = some (⟨⟨(absF rb q).W, q0 ++ [record e t.maxLine c], (absF rb q).sem.map (· + 1)⟩, none⟩, .num 0) := by
+    have hc : FifoP.step true ⟨⟨(absF rb q).W, q0, (absF rb q).sem⟩, some (maxSize (msgLimit e t) c)⟩ (.commit (record e (msgLimit e t) c))
+        = some (⟨⟨(absF rb q).W, q0 ++ [record e (msgLimit e t) c], (absF rb q).sem.map (· + 1)⟩, none⟩, .num 0) := by
       simp [FifoP.step, hfit, Fifo.post]
     have hW : rb'.W = rb.W := by
       rw [hc] at hst2
       simp only [Option.some.injEq, Prod.mk.injEq, FifoP.mk.injEq, and_true] at hst2
       have := congrArg Fifo.W hst2
       simpa [absF] using this.symm
-    obtain ⟨hsz, hmx⟩ := vlogger_cfg e t c
+    obtain ⟨hsz, _⟩ := vlogger_cfg e t c
+    have hmx := vlogger_limit e t c
     obtain ⟨rb2, q2, TR2, h1, h2, h3, h4, h5⟩ := ih (vlogger e t c) rb' _ TR' (by rw [hsz, hS]) hmx hinst' hinv' how'
       (by rw [hW]; exact hcap) (fun c' hc' => hres c' (List.mem_cons_of_mem _ hc'))
     refine ⟨rb2, q2, TR2, h1, h2, h3, by rw [h4, hW], ?_⟩
-    have hp : pairsOf e t.maxLine (c :: cs) = (maxSize t c, record e t.maxLine c) :: pairsOf e t.maxLine cs := rfl
+    have hp : pairsOf e (msgLimit e t) (c :: cs) = (maxSize (msgLimit e t) c, record e (msgLimit e t) c) :: pairsOf e (msgLimit e t) cs := rfl
     rw [hp]
     simp only [bbOps, FifoP.run, hst1', hst2]
     exact h5
@@ -174,33 +237,29 @@ theorem roundUp_mod (x page : Nat) : roundUp x page % page = 0 := by
   unfold roundUp
   exact Nat.mul_mod_left _ _
 
-/-- **C11, blackbox sentence, on the model of the blackbox layer** (`_partial`: the clause "every
-    newest run whose reservations fit is contained" is not proved at this level, see below).
+/-- **C11, blackbox sentence, on the model of the blackbox layer.**
     For every configuration — size `≥ 1024` accepted by `qb_log_blackbox_open`, page size, line
-    limit `ml ≥ 1` for which the "too long" text fits its reservation (repair of D32, or `ml ≥ 78`),
-    every encoder with the `%s` room check — and every history `cs` of log calls whose
-    reservations `33 + fn_size + ml` do not exceed the size: at the end (= at any moment: every
-    prefix of a history is a history) the blackbox still has its ring; the ring holds chunks `q`
-    with
+    limit `ml ≥ 1` (`qb_log_ctl2` admits 4 … 4096), every encoder with the `%s` room check, the
+    logger as it is (defect D32 repaired; with or without the proposed repair of D33, which only
+    changes the message bound `effLimit e ml`) — and every history `cs` of log calls whose
+    reservations `33 + fn_size + effLimit e ml` do not exceed the size: at the end (= at any moment: every prefix of a
+    history is a history) the blackbox still has its ring; the ring holds chunks `q` with
     * `q` is a suffix of the records logged, in order, byte-identical (an unbroken run of the
       latest records),
-    * ending with the record of the very last call;
+    * ending with the record of the very last call,
+    * containing every newest run of records whose reservations, 16 bytes of overhead each, fit
+      into the configured size;
     and the dump file `qb_log_blackbox_write_to_file` writes — marker block + `qb_rb_write_to_file` —,
     read back by `qb_log_blackbox_print_from_file` (`qb_rb_create_from_file` + the print loop,
-    C15's `dump_roundtrip`), prints exactly the chunks `q`, oldest first.
-
-    Full statement, additionally: `∀ s, s <:+ cs → (s.map (fun c => actualBase c + ml + 16)).sum ≤ size →
-    s.map (record e ml) <:+ q`.  Proved for chunks counted with their own length
-    (`ow_keeps_all_that_fit`, `ow_writes_keep_all_that_fit`); the variant where a chunk is counted
-    with its reservation (the drop loop of `alloc` runs on the reservation) is not proved; it is
-    what the python oracle of the blackbox stream checks on every generated dump. -/
-theorem bb_dump_latest_run_partial {σ : Type} (e : Env) (size ml : Nat) (cs : List Call) (D : Dump.Decoder σ) (s : σ)
+    C15's `dump_roundtrip`), prints exactly the chunks `q`, oldest first. -/
+theorem bb_dump_latest_run {σ : Type} (e : Env) (size ml : Nat) (cs : List Call) (D : Dump.Decoder σ) (s : σ)
     (hp : 0 < e.page) (h4 : e.page % 4 = 0) (hbig : roundUp (size + MARGIN + 1) e.page < 2 ^ 31)
-    (hser : e.ser.strRoom = true) (hm : 1 ≤ ml) (htl : TooLongFits e ml) (hsize : MIN_SIZE ≤ size)
-    (hres : ∀ c ∈ cs, actualBase c + ml ≤ size) :
+    (hser : e.ser.strRoom = true) (hm : 1 ≤ ml) (hfix : e.fixD32 = true) (hsize : MIN_SIZE ≤ size)
+    (hres : ∀ c ∈ cs, actualBase c + effLimit e ml ≤ size) :
     ∃ rb q TR, (logAll e (bbOpen e ⟨size, ml, none⟩).1 cs).inst = some rb ∧ Inv rb q TR ∧
-      q <:+ cs.map (record e ml) ∧
-      (∀ c, cs.getLast? = some c → q.getLast? = some (record e ml c)) ∧
+      q <:+ cs.map (record e (effLimit e ml)) ∧
+      (∀ c, cs.getLast? = some c → q.getLast? = some (record e (effLimit e ml) c)) ∧
+      (∀ s', s' <:+ cs → (s'.map (fun c => actualBase c + effLimit e ml + 16)).sum ≤ size → s'.map (record e (effLimit e ml)) <:+ q) ∧
       writeToFile (logAll e (bbOpen e ⟨size, ml, none⟩).1 cs) = (((Dump.dump true rb).length : Int), Dump.dump true rb) ∧
       Dump.printFromFile (Dump.Cfg.repaired e.page) D s (writeToFile (logAll e (bbOpen e ⟨size, ml, none⟩).1 cs)).2 =
         DumpLemmas.printChunks (Dump.Cfg.repaired e.page) true D s q
@@ -210,25 +269,33 @@ theorem bb_dump_latest_run_partial {σ : Type} (e : Env) (size ml : Nat) (cs : L
     simp only [rbOpen]
     rw [if_neg (by omega)]
   rw [hopen]
+  have htl : TooLongFits e (effLimit e ml) := Or.inl hfix
+  have hm' := effLimit_pos e ml hm
   have hinv0 := open_inv size e.page true true hp h4 hbig
   have hcap := C07.open_capacity size e.page true true hp h4
-  obtain ⟨rb, q, TR, hinst, hinv, _, hW, hrun⟩ := bb_history e size ml cs ⟨size, ml, some (Rb.open size e.page true true)⟩
-    (Rb.open size e.page true true) [] 0 rfl rfl rfl hinv0 rfl hser hm htl hcap hres
-  have hps : ∀ p ∈ pairsOf e ml cs, p.2.length ≤ p.1 ∧ p.1 ≤ size := by
+  obtain ⟨rb, q, TR, hinst, hinv, _, hW, hrun⟩ := bb_history e size (effLimit e ml) cs ⟨size, ml, some (Rb.open size e.page true true)⟩
+    (Rb.open size e.page true true) [] 0 rfl rfl rfl hinv0 rfl hser hm' hfix hcap hres
+  have hps : ∀ p ∈ pairsOf e (effLimit e ml) cs, p.2.length ≤ p.1 ∧ p.1 ≤ size := by
     intro p hp'
     simp only [pairsOf, List.mem_map] at hp'
     obtain ⟨c, hc, rfl⟩ := hp'
-    exact ⟨(bb_record_within_reservation e ⟨size, ml, none⟩ c hser hm htl).2, hres c hc⟩
-  obtain ⟨_, hsuf, hlast⟩ := bb_dump_is_latest_run (absF (Rb.open size e.page true true) []) size (pairsOf e ml cs) hcap hps
+    exact ⟨(bb_record_within_reservation e (effLimit e ml) c hser hm' htl).2, hres c hc⟩
+  obtain ⟨_, hsuf, hlast⟩ := bb_dump_is_latest_run (absF (Rb.open size e.page true true) []) size (pairsOf e (effLimit e ml) cs) hcap hps
   rw [hrun] at hsuf hlast
-  have hmap : (pairsOf e ml cs).map (·.2) = cs.map (record e ml) := by
+  have hmap : (pairsOf e (effLimit e ml) cs).map (·.2) = cs.map (record e (effLimit e ml)) := by
     simp [pairsOf, List.map_map, Function.comp_def]
-  refine ⟨rb, q, TR, hinst, hinv, ?_, ?_, ?_, ?_⟩
+  refine ⟨rb, q, TR, hinst, hinv, ?_, ?_, ?_, ?_, ?_⟩
   · simpa [absF, hmap] using hsuf
   · intro c hc
-    have : (pairsOf e ml cs).getLast? = some (actualBase c + ml, record e ml c) := by
+    have : (pairsOf e (effLimit e ml) cs).getLast? = some (actualBase c + effLimit e ml, record e (effLimit e ml) c) := by
       simp [pairsOf, List.getLast?_map, hc]
     simpa [absF] using hlast _ this
+  · intro s' hs' hfit
+    have hk := bb_run_keeps_fit (absF (Rb.open size e.page true true) []) size (pairsOf e (effLimit e ml) cs) hcap hps [] rfl
+      (by intro p hp; cases hp) (pairsOf e (effLimit e ml) s') (by simpa [pairsOf] using hs'.map _)
+      (by simpa [pairsOf, List.map_map, Function.comp_def] using hfit)
+    rw [hrun] at hk
+    simpa [absF, pairsOf, List.map_map, Function.comp_def] using hk
   · simp [writeToFile, hinst]
   · have hwf : (writeToFile (logAll e ⟨size, ml, some (Rb.open size e.page true true)⟩ cs)).2 = Dump.dump true rb := by
       simp [writeToFile, hinst]
@@ -241,14 +308,14 @@ theorem bb_dump_latest_run_partial {σ : Type} (e : Env) (size ml : Nat) (cs : L
     unfold MIN_SIZE at hsize
     omega
 
-/-- non-vacuity: default configuration (size 1024, line limit 512), two calls -/
-example : ∃ rb q TR, (logAll ⟨4096, Ser.Cfg.repaired, false⟩ (bbOpen ⟨4096, Ser.Cfg.repaired, false⟩ ⟨1024, 512, none⟩).1
+/-- non-vacuity: size 1024, line limit 4 (below the "too long" text), two calls whose messages do not fit -/
+example : ∃ rb q TR, (logAll ⟨4096, Ser.Cfg.repaired, true, false⟩ (bbOpen ⟨4096, Ser.Cfg.repaired, true, false⟩ ⟨1024, 4, none⟩).1
       [d32Call, { d32Call with lineno := 2 }]).inst = some rb ∧ Inv rb q TR ∧
-    q <:+ [d32Call, { d32Call with lineno := 2 }].map (record ⟨4096, Ser.Cfg.repaired, false⟩ 512) ∧
-    (∀ c, [d32Call, { d32Call with lineno := 2 }].getLast? = some c → q.getLast? = some (record ⟨4096, Ser.Cfg.repaired, false⟩ 512 c)) := by
-  obtain ⟨rb, q, TR, h1, h2, h3, h4, _⟩ := bb_dump_latest_run_partial (σ := Unit) ⟨4096, Ser.Cfg.repaired, false⟩ 1024 512
+    q <:+ [d32Call, { d32Call with lineno := 2 }].map (record ⟨4096, Ser.Cfg.repaired, true, false⟩ 4) ∧
+    (∀ c, [d32Call, { d32Call with lineno := 2 }].getLast? = some c → q.getLast? = some (record ⟨4096, Ser.Cfg.repaired, true, false⟩ 4 c)) := by
+  obtain ⟨rb, q, TR, h1, h2, h3, h4, _⟩ := bb_dump_latest_run (σ := Unit) ⟨4096, Ser.Cfg.repaired, true, false⟩ 1024 4
     [d32Call, { d32Call with lineno := 2 }] ⟨fun s _ => (s, ⟨[], 1⟩)⟩ () (by decide) (by decide) (by decide) rfl (by decide)
-    (Or.inr (by decide)) (by decide) (by decide)
+    rfl (by decide) (by decide)
   exact ⟨rb, q, TR, h1, h2, h3, h4⟩
 
 end QbVerif.Props.C11
